@@ -144,17 +144,13 @@ func TestVerif_C26(t *testing.T) {
 		r.Assume("sender recovery is bypassed (fixed-sender Signer); block context is built directly (no header / system calls / withdrawals / requests)")
 		r.Assume("pre-states contain no EIP-161-empty accounts; no precompile execution, no EIP-7702 delegations")
 		part := os.Getenv("VERIF_C26_PART") // debugging aid: run one part only
-		if part == "" || part == "envelope" {
-			c26Envelope(r, st)
-		}
-		if part == "" || part == "opgrid" {
-			c26OpGrids(r, st)
-		}
-		if part == "" || part == "units" {
-			c26Sequences(r, st)
-		}
-		if part == "" || part == "twotx" {
-			c26TwoTx(r, st)
+		for _, p := range []struct {
+			name string
+			run  func(*mc.R, *c26Stats)
+		}{{"units", c26Sequences}, {"twotx", c26TwoTx}, {"opgrid", c26OpGrids}, {"envelope", c26Envelope}} {
+			if (part == "" || part == p.name) && !r.Expired() {
+				p.run(r, st)
+			}
 		}
 		for k, v := range st.oc {
 			r.OutcomeN(k, v)
@@ -920,6 +916,16 @@ func c26StateChanging(name string) bool {
 	return false
 }
 
+// c26Observing: units whose result or cost depends on what an earlier transaction left behind.
+func c26Observing(name string) bool {
+	for _, p := range []string{"SLOAD", "TLOAD", "BALANCE", "SELFBALANCE", "EXTCODE", "GAS", "CALL(B5)", "CALL(B7)", "STATICCALL(B7)", "CALL(none)"} {
+		if strings.HasPrefix(name, p) {
+			return true
+		}
+	}
+	return false
+}
+
 func c26TwoTx(r *mc.R, st *c26Stats) {
 	us := c26Units()
 	forks := c26Forks()
@@ -947,6 +953,9 @@ func c26TwoTx(r *mc.R, st *c26Stats) {
 		for u2 := range us {
 			if r.Expired() {
 				return
+			}
+			if r.Quick() && !c26StateChanging(us[u2].name) && !c26Observing(us[u2].name) {
+				continue
 			}
 			a := c26P()
 			us[sh.u1].emit(a, 0x40)
